@@ -127,12 +127,12 @@ Proof.
   apply eff_tasks. apply eff_same; auto.
 Qed.
 
-Lemma close_eff s : c05_eff s (do_close s).
+Lemma close_eff s r : c05_eff s (do_close s r).
 Proof.
-  destruct (do_close_spec s) as (s2 & -> & C). pose proof (closing_io _ _ C) as Hio.
+  destruct (do_close_spec s r) as (s2 & -> & C). pose proof (closing_io _ _ C) as Hio.
   destruct C as (C1&C2&C3&C4&C5&C6&C7&C8&C9&C10&C11&C12&C13&C14&C15).
   rewrite clear_queues_eq. split; [exact C3|]. split; [exact C8|]. right. left. sk. repeat split; auto.
-  destruct C15 as [E|E]; [now left|right]. exists W_DISCONNECT, 0. auto.
+  destruct C15 as [E|[rc E]]; [now left|right]. exists W_DISCONNECT, rc. auto.
 Qed.
 
 Lemma force_close_eff s : c05_eff s (do_force_close s).
@@ -236,14 +236,14 @@ Lemma cpub0_refl s : cpub0 s s. Proof. intros H. auto. Qed.
 Lemma cpub0_trans a b c : cpub0 a b -> cpub0 b c -> cpub0 a c.
 Proof. unfold cpub0. intros H1 H2 E. destruct (H1 E) as [A B]. destruct (H2 A) as [C D]. split; auto. congruence. Qed.
 
-Lemma close_facts s : cap (do_close s) = cap s /\ wrb (do_close s) = wrb s /\ wire_ext s (do_close s) /\
-  inflight (do_close s) = [] /\ io (do_close s) <> 0.
+Lemma close_facts s r : cap (do_close s r) = cap s /\ wrb (do_close s r) = wrb s /\ wire_ext s (do_close s r) /\
+  inflight (do_close s r) = [] /\ io (do_close s r) <> 0.
 Proof.
-  destruct (close_eff s) as (A & B & [(C1 & C2 & C3)|[(C1 & C2 & C3)|(e & tag & id & C1 & _)]]).
-  - destruct (do_close_spec s) as (s2 & E & C). pose proof (closing_io _ _ C) as Hio. rewrite E in *.
+  destruct (close_eff s r) as (A & B & [(C1 & C2 & C3)|[(C1 & C2 & C3)|(e & tag & id & C1 & _)]]).
+  - destruct (do_close_spec s r) as (s2 & E & C). pose proof (closing_io _ _ C) as Hio. rewrite E in *.
     rewrite clear_queues_eq in *. sk. sk in C2. repeat split; auto.
   - auto.
-  - destruct (do_close_spec s) as (s2 & E & C). rewrite E, clear_queues_eq in C1. sk in C1. destruct (inflight s); discriminate.
+  - destruct (do_close_spec s r) as (s2 & E & C). rewrite E, clear_queues_eq in C1. sk in C1. destruct (inflight s); discriminate.
 Qed.
 
 Definition ack_sum (s s' : sink) (fin : bool) : Prop :=
@@ -255,9 +255,9 @@ Definition ack_sum (s s' : sink) (fin : bool) : Prop :=
 Lemma ack_sum_noop s : ack_sum s s false.
 Proof. unfold ack_sum. repeat split; auto using wire_ext_refl. Qed.
 
-Lemma ack_sum_close s s1 : cap s1 = cap s -> wrb s1 = wrb s -> wire s1 = wire s -> ack_sum s (do_close s1) false.
+Lemma ack_sum_close s s1 r : cap s1 = cap s -> wrb s1 = wrb s -> wire s1 = wire s -> ack_sum s (do_close s1 r) false.
 Proof.
-  intros A B C. destruct (close_facts s1) as (F1 & F2 & F3 & F4 & F5). unfold ack_sum.
+  intros A B C. destruct (close_facts s1 r) as (F1 & F2 & F3 & F4 & F5). unfold ack_sum.
   split; [congruence|]. split; [congruence|]. split; [unfold wire_ext in *; now rewrite <- C|].
   split; [intros Z; contradiction|]. split; [now right|]. rewrite F4. intros e [].
 Qed.
@@ -601,9 +601,9 @@ Ltac nfe := first [apply nf_refl | apply nf_eq; reflexivity].
 
 Lemma nf_clear s c : nf s (clear_queues s) c.
 Proof. rewrite clear_queues_eq. unfold nf. sk. apply nfill_weak. unfold cleared. apply nfill_fold_dtx. Qed.
-Lemma nf_close s c : nf s (do_close s) c.
+Lemma nf_close s r c : nf s (do_close s r) c.
 Proof.
-  destruct (do_close_spec s) as (s2 & -> & C). eapply nf_trans; [|apply nf_clear].
+  destruct (do_close_spec s r) as (s2 & -> & C). eapply nf_trans; [|apply nf_clear].
   apply nf_eq. apply C.
 Qed.
 Lemma nf_force_close s c : nf s (do_force_close s) c.
@@ -816,17 +816,17 @@ Proof.
   unfold ack_one.
   destruct (N.eqb_spec (io s) 0) as [Hio|Hio]; cbn [negb]; [|intros F; contradiction].
   destruct ((k =? 0) || (5 <? k)); [intros F; contradiction|].
-  destruct (N.eqb_spec id' 0) as [->|Hid]; [intros F; exfalso; exact (CONTRA _ (nf_close _ _) F)|].
+  destruct (N.eqb_spec id' 0) as [->|Hid]; [intros F; exfalso; exact (CONTRA _ (nf_close _ _ _) F)|].
   destruct (((k =? 4) || (k =? 5)) && negb (client s)); [intros F; contradiction|].
   unfold pkt_ack, pkt_ack_inner.
   destruct (inflight s) as [|[[i tx] tp] rest] eqn:HI.
-  { intros F; exfalso; exact (CONTRA _ (nf_close _ _) F). }
+  { intros F; exfalso; exact (CONTRA _ (nf_close _ _ _) F). }
   assert (DT : nf s (drop_tx_opt (set_inflight s rest) tx) c).
   { rewrite drop_tx_opt_eq. unfold nf. sk. apply nfill_weak. destruct tx; [apply nfill_drop_tx|apply nfill_refl]. }
   destruct (N.eqb_spec i id') as [->|NE]; cbn [negb].
-  2:{ intros F; exfalso; exact (CONTRA _ (nf_trans _ _ _ _ DT (nf_close _ _)) F). }
+  2:{ intros F; exfalso; exact (CONTRA _ (nf_trans _ _ _ _ DT (nf_close _ _ _)) F). }
   destruct (N.eqb_spec k tp) as [->|NE]; cbn [negb].
-  2:{ intros F; exfalso; exact (CONTRA _ (nf_trans _ _ _ _ DT (nf_close _ _)) F). }
+  2:{ intros F; exfalso; exact (CONTRA _ (nf_trans _ _ _ _ DT (nf_close _ _ _)) F). }
   destruct (i_inf _ _ I id' tx tp) as (_ & _ & c0 & -> & K0 & O0); [rewrite HI; now left|].
   assert (NW : ~ In c (waiters s)).
   { intros H. apply (i_ws _ _ I) in H as [H _]. destruct A as [A|A]; congruence. }
@@ -881,8 +881,8 @@ Qed.
 Lemma ack_one_tasks s k id : tasks (ack_one s k id) = tasks s.
 Proof.
   unfold ack_one. destruct (negb _); auto. destruct (_ || _); auto.
-  assert (C : forall s0, tasks (do_close s0) = tasks s0).
-  { intros s0. destruct (do_close_spec s0) as (s2 & -> & C). rewrite clear_queues_eq. sk. apply C. }
+  assert (C : forall s0 r, tasks (do_close s0 r) = tasks s0).
+  { intros s0 r. destruct (do_close_spec s0 r) as (s2 & -> & C). rewrite clear_queues_eq. sk. apply C. }
   destruct (id =? 0); [apply C|]. destruct (_ && _); auto. unfold pkt_ack, pkt_ack_inner.
   destruct (inflight s) as [|[[i tx] tp] rest]; [apply C|].
   assert (D : forall s0, tasks (drop_tx_opt s0 tx) = tasks s0) by (intros s0; rewrite drop_tx_opt_eq; reflexivity).
@@ -1036,11 +1036,11 @@ Theorem mismatch_is_clean s k id :
 Proof.
   unfold ack_seen, head_matches. intros AS MM. apply andb_true_iff in AS as [AS A3]. apply andb_true_iff in AS as [A1 A2].
   cbv zeta. split; [apply ack_one_tasks|].
-  assert (CL : forall s1, (forall c, nf s s1 c) ->
-     io (do_close s1) <> 0 /\ inflight (do_close s1) = [] /\ waiters (do_close s1) = [] /\
-     forall c, c_st (cg (do_close s1) c) = CFilled -> c_st (cg s c) = CFilled /\ c_val (cg (do_close s1) c) = c_val (cg s c)).
-  { intros s1 N. destruct (close_facts s1) as (_ & _ & _ & F4 & F5). split; auto. split; auto. split.
-    - destruct (do_close_spec s1) as (s2 & -> & _). rewrite clear_queues_eq. reflexivity.
+  assert (CL : forall s1 r, (forall c, nf s s1 c) ->
+     io (do_close s1 r) <> 0 /\ inflight (do_close s1 r) = [] /\ waiters (do_close s1 r) = [] /\
+     forall c, c_st (cg (do_close s1 r) c) = CFilled -> c_st (cg s c) = CFilled /\ c_val (cg (do_close s1 r) c) = c_val (cg s c)).
+  { intros s1 r N. destruct (close_facts s1 r) as (_ & _ & _ & F4 & F5). split; auto. split; auto. split.
+    - destruct (do_close_spec s1 r) as (s2 & -> & _). rewrite clear_queues_eq. reflexivity.
     - intros c. apply nf_filled. eapply nf_trans; [apply N|apply nf_close]. }
   unfold ack_one. apply N.eqb_eq in A1. rewrite A1. cbn [N.eqb negb]. replace (negb (0 =? 0)) with false by reflexivity.
   apply negb_true_iff in A2. rewrite A2. apply negb_true_iff in A3. rewrite A3.
@@ -1373,8 +1373,8 @@ Qed.
 
 Lemma cm_clear s c : cm s (clear_queues s) c.
 Proof. rewrite clear_queues_eq. unfold cm. sk. unfold cleared. apply cmx_fold_dtx. Qed.
-Lemma cm_close s c : cm s (do_close s) c.
-Proof. destruct (do_close_spec s) as (s2 & -> & C). eapply cm_trans; [|apply cm_clear]. apply cm_eq. apply C. Qed.
+Lemma cm_close s r c : cm s (do_close s r) c.
+Proof. destruct (do_close_spec s r) as (s2 & -> & C). eapply cm_trans; [|apply cm_clear]. apply cm_eq. apply C. Qed.
 Lemma cm_force_close s c : cm s (do_force_close s) c.
 Proof. unfold do_force_close. eapply cm_trans; [|apply cm_clear]. now apply cm_eq. Qed.
 Lemma cm_drop_rx s c0 c : cm s (drop_rx s c0) c. Proof. unfold cm, drop_rx. sk. apply cmx_drop_rx. Qed.
@@ -1547,8 +1547,8 @@ Qed.
 Lemma ack_one_length s k id : (length (chans s) <= length (chans (ack_one s k id)))%nat.
 Proof.
   unfold ack_one. destruct (negb _); auto. destruct (_ || _); auto.
-  assert (C : forall s0, length (chans (do_close s0)) = length (chans s0)).
-  { intros s0. destruct (do_close_spec s0) as (s2 & -> & C). rewrite clear_queues_eq. sk. unfold cleared.
+  assert (C : forall s0 r, length (chans (do_close s0 r)) = length (chans s0)).
+  { intros s0 r. destruct (do_close_spec s0 r) as (s2 & -> & C). rewrite clear_queues_eq. sk. unfold cleared.
     rewrite fold_dtx_length. f_equal. apply C. }
   destruct (id =? 0); [rewrite C; auto|]. destruct (_ && _); auto. unfold pkt_ack, pkt_ack_inner.
   destruct (inflight s) as [|[[i tx] tp] rest]; [rewrite C; auto|].
@@ -2252,7 +2252,7 @@ Proof.
   - eapply wake_ok_other; eauto; [apply drop_receipt_eff|apply drop_receipt_tw].
   - apply wake_ok_wrb. now exists ks.
   - apply wake_ok_set_cap. now exists ks.
-  - apply wake_ok_closed; auto. destruct (close_facts s) as (_ & _ & _ & _ & Z). exact Z.
+  - apply wake_ok_closed; auto. destruct (close_facts s RC_NORMAL) as (_ & _ & _ & _ & Z). exact Z.
   - apply wake_ok_closed; auto. unfold do_force_close. rewrite clear_queues_eq. discriminate.
   - eapply wake_ok_other; eauto; [apply eff_same; try reflexivity; now left|now left].
   - eapply wake_ok_other; eauto; [apply chunk_eff|apply chunk_tw].
@@ -2545,4 +2545,69 @@ Proof.
     - eapply start_ended_books; eauto.
     - eapply create_ended_books; eauto. }
   unfold books in B. sk in B. exact B.
+Qed.
+
+(* ---------------------------------------------------------------- the reason code of the DISCONNECT a close writes *)
+(* what a close may append to the wire: the DISCONNECT with the caller's reason (v5) / without a reason (v3) *)
+Definition disc_entry (s : sink) (r : N) : list N := [W_DISCONNECT; if ver s =? 3 then 0 else r].
+
+Lemma clear_queues_wire s : wire (clear_queues s) = wire s.
+Proof. rewrite clear_queues_eq. reflexivity. Qed.
+
+Lemma do_close_wire s r :
+  wire (do_close s r) = wire s \/ wire (do_close s r) = wire s ++ disc_entry s r.
+Proof.
+  unfold do_close, disc_entry. destruct (ver s =? 3); rewrite clear_queues_wire;
+    unfold disconnect_sent, io_close, is_closed, enc_packet, add_wire; sk.
+  - destruct (client s); [|destruct (io s =? 0); sk; auto].
+    destruct (disc s); sk; [destruct (io s =? 0); sk; auto|].
+    destruct (negb (srem s =? 0)); sk; [destruct (io s =? 0); sk; auto|].
+    destruct (io s =? 0) eqn:E; sk; [|rewrite E; sk; auto].
+    destruct (negb (crem s =? 0)); sk; rewrite E; sk; auto.
+  - destruct (io s =? 2); [auto|].
+    destruct (disc s); sk; [destruct (io s =? 0); sk; auto|].
+    destruct (io s =? 0) eqn:E; sk; [|rewrite E; sk; auto].
+    destruct (negb (crem s =? 0)); sk; rewrite E; sk; auto.
+Qed.
+
+Lemma pkt_ack_inner_wire s k id : wire (fst (pkt_ack_inner s k id)) = wire s.
+Proof.
+  unfold pkt_ack_inner. destruct (inflight s) as [|[[i tx] tp] rest]; [reflexivity|].
+  assert (DT : forall s0, wire (drop_tx_opt s0 tx) = wire s0) by (intros s0; destruct tx; reflexivity).
+  assert (SO : forall s0 v, wire (send_opt s0 tx v) = wire s0).
+  { intros s0 v. unfold send_opt, send. destruct tx; [destruct (ch_send _ _ _)|]; reflexivity. }
+  destruct (negb (i =? id)); [cbn [fst]; now rewrite DT|].
+  destruct (negb (k =? tp)); [cbn [fst]; now rewrite DT|].
+  destruct (k =? 2).
+  { unfold new_chan, rxm_insert. cbn [fst]. sk. destruct (rxm_find _ _); sk; unfold drop_rx; sk; now rewrite SO. }
+  destruct (k =? 3).
+  { cbn [fst]. rewrite wake_eq. sk. rewrite SO. destruct (rxm_find _ _); unfold drop_rx; reflexivity. }
+  cbn [fst]. rewrite wake_eq. sk. now rewrite SO.
+Qed.
+
+(* processing one acknowledgement writes nothing, or -- when it breaks the rules (packet id 0, nothing
+   outstanding, not the id / kind of the oldest outstanding send) -- at most the DISCONNECT with the reason
+   ImplementationSpecificError (v5; a v3 DISCONNECT has no reason code): never "normal disconnection" *)
+Theorem ack_one_disconnect_reason s k id :
+  wire (ack_one s k id) = wire s \/ wire (ack_one s k id) = wire s ++ disc_entry s RC_IMPL.
+Proof.
+  unfold ack_one. destruct (negb (io s =? 0)); [now left|].
+  destruct (_ || _); [now left|]. destruct (id =? 0); [apply do_close_wire|].
+  destruct (_ && _); [now left|]. unfold pkt_ack.
+  pose proof (pkt_ack_inner_wire s k id) as W.
+  assert (V : ver (fst (pkt_ack_inner s k id)) = ver s).
+  { unfold pkt_ack_inner. destruct (inflight s) as [|[[i tx] tp] rest]; [reflexivity|].
+    assert (DT : forall s0, ver (drop_tx_opt s0 tx) = ver s0) by (intros s0; destruct tx; reflexivity).
+    assert (SO : forall s0 v, ver (send_opt s0 tx v) = ver s0).
+    { intros s0 v. unfold send_opt, send. destruct tx; [destruct (ch_send _ _ _)|]; reflexivity. }
+    destruct (negb (i =? id)); [cbn [fst]; now rewrite DT|].
+    destruct (negb (k =? tp)); [cbn [fst]; now rewrite DT|].
+    destruct (k =? 2).
+    { unfold new_chan, rxm_insert. cbn [fst]. sk. destruct (rxm_find _ _); sk; unfold drop_rx; sk; now rewrite SO. }
+    destruct (k =? 3).
+    { cbn [fst]. rewrite wake_eq. sk. rewrite SO. destruct (rxm_find _ _); unfold drop_rx; reflexivity. }
+    cbn [fst]. rewrite wake_eq. sk. now rewrite SO. }
+  destruct (pkt_ack_inner s k id) as [s1 [|]]; cbn [fst] in *; [now left|].
+  destruct (do_close_wire s1 RC_IMPL) as [E|E]; rewrite E, W; [now left|right].
+  unfold disc_entry. now rewrite V.
 Qed.
